@@ -90,7 +90,8 @@ def compare(text: str, oracle: metafront.MetaOracle):
     try:
         act = adapter.loaded_structure(got)
     except Exception as e:  # noqa: BLE001
-        return "VIOLATION", {"what": "loaded rule objects cannot be walked", "impl": f"{type(e).__name__}: {e}"}
+        # the adapter reads internal classes; if it cannot, the harness is out of date, not the repository wrong
+        return "harness-error", {"why": f"{type(e).__name__}: {e}"}
     exp_rules = {}
     for r in g["rules"]:
         exp_rules[r["name"]] = r  # later definitions win
@@ -136,6 +137,8 @@ def judge(text: str, source: str, oracle, acc: Acc, vk: dict) -> None:
         acc.count("structure_comparisons")
         for fid in verdict[6:].split(","):
             acc.known_hit(fid, {"text": text[:200]})
+    elif verdict == "harness-error":
+        acc.inconclusive.append("adapter cannot walk the loaded rule objects: " + detail["why"])
     elif verdict == "VIOLATION":
         key = (detail["what"].split(" of rule")[0], detail.get("impl", "")[:40])
         n = vk.get(key, [])
